@@ -399,5 +399,9 @@ class SED(object):
         apertures[np.log10(sed_wav) < log10_ap_interp.x[0]] = 10. ** log10_ap_interp.y[0]
         apertures[np.log10(sed_wav) > log10_ap_interp.x[-1]] = 10. ** log10_ap_interp.y[-1]
 
+        # The apertures went through log10 and back, so one that was exactly at
+        # the edge of the tabulated range can end up outside it by round-off
+        apertures = np.clip(apertures, sed_apertures.min(), sed_apertures.max())
+
         # Interpolate and return only diagonal elements
         return flux_interp(apertures).diagonal()
